@@ -337,6 +337,17 @@ def CreateMonitor(interval,
 
                         moduleLogger.critical("The filesystem is not reliable at the moment,"
                                               " this monitor will terminate.")
+                        # VV: Whoever started the monitor expects it to stop only when it is cancelled and, then, to
+                        #     perform the action a last time (e.g. this is how a RepeatingEngine learns that it is
+                        #     finished): do what a cancellation would have done
+                        if cancelEvent is not None:
+                            cancelEvent.set()
+
+                        if lastAction and continueAction:
+                            try:
+                                action(True)
+                            except Exception as last_error:
+                                moduleLogger.warning("Last execution of %s failed: %s" % (name, last_error))
                         return
                     except Exception as error:
                         ex_type, ex, tb = sys.exc_info()
